@@ -332,7 +332,9 @@ class EptMapResult:
                     b"".join(f.pack() for f in t),
                 ]
             )
-            padding = -(len(b_t)) % 4
+            # NDR64: the next tower (a conformant structure) starts 8 byte aligned, the status after
+            # the last tower is 4 byte aligned.
+            padding = -(len(b_t) + 4) % 8 if idx + 1 < len(self.towers) else -len(b_t) % 4
             b_tower += b"".join(
                 [
                     len(b_t).to_bytes(8, byteorder="little"),
